@@ -13,10 +13,24 @@ import (
 	"time"
 
 	"verifh/core"
-	_ "verifh/props"
+	"verifh/props"
 )
 
 func main() {
+	if len(os.Args) >= 2 && os.Args[1] == "c02stats" {
+		props.C02Stats()
+		props.CleanScratch()
+		return
+	}
+	if len(os.Args) >= 2 && os.Args[1] == "probe" {
+		probeMain()
+		return
+	}
+	if len(os.Args) >= 3 && os.Args[1] == "hist" {
+		props.HistMain(os.Args[2], os.Args[3:])
+		props.CleanScratch()
+		return
+	}
 	if len(os.Args) < 3 {
 		fmt.Println("usage: vcheck run|worker|replay <ID> ...")
 		os.Exit(2)
